@@ -43,6 +43,10 @@ PATCHES = {
     "lab0": ("P0:\nnop", {"P0": 0}, None),
     "jmplab": ("jmp L2\nP2:", {"P2": 2}, "jmp"),
     "cfi": ("pushq %rax\n.cfi_adjust_cfa_offset 8\npopq %rax\n.cfi_adjust_cfa_offset -8", {}, None),
+    # two IDENTICAL directives at one position (CFI directives are not idempotent), balanced by one directive
+    "cfidup": ("pushq %rax\npushq %rax\n.cfi_adjust_cfa_offset 8\n.cfi_adjust_cfa_offset 8\npopq %rax\npopq %rax\n.cfi_adjust_cfa_offset -16", {}, None),
+    # data embedded in a code patch, jumped over
+    "embdata": ("jmp PD\n.byte 1, 2\nPD:\nnop", {"PD": 4}, None),
     "symexpr": ("movq L2(%rip), %rax", {}, None),
     # two calls to the same function in ONE patch
     "twocalls": ("call g\nnop\ncall g", {}, "call"),
